@@ -237,6 +237,16 @@ def fns_in(e):
     return out
 
 
+def pw_chains(e, parent_is_pw_els=False):
+    """number of Piecewise objects the AST denotes (a pw in the `els` slot of a pw continues the same Piecewise)"""
+    n = 0
+    if e[0] == 'pw':
+        if not parent_is_pw_els:
+            n += 1
+        return n + pw_chains(e[2]) + pw_chains(e[3]) + pw_chains(e[4]) + pw_chains(e[5], True)
+    return sum(pw_chains(c) for c in children(e))
+
+
 def has_var(e):
     return e[0] == 'var' or any(has_var(c) for c in children(e))
 
@@ -541,12 +551,29 @@ def run(chk, replay=None):
                 chk.coverage['correspondence']['diagnostics'].append('timeout (8 s) inside SymPy: %s at %s' % (inp['sympy'][:120], inp['x']))
             return fails, info_
         # correspondence numeric
-        if mnum.startswith('val'):
+        noisy = bool(fns_in(e) & {'sincn', 'sinc', 'sincu', 'psinc'})
+        if noisy and not reg:
+            # sin(pi n) is a 1e-16 residue, not 0: when a sinc-family value feeds a function sitting exactly on its
+            # discontinuity the float result depends on the sign of that residue (H(+-1e-17)); the point is not regular anyway
+            chk.count('degenerate', 'sinc-rounding-residue-at-a-discontinuity')
+        elif mnum.startswith('val'):
             chk.coverage['correspondence']['compared'] += 1
             r = Fraction(mnum.split()[1])
             got = fl(rn[1]) if rn[0] == 'val' else None
             if got is None or abs(got - r) > TOL * max(scale, abs(r)):
-                disagree('evalNumeric', dict(inp, lcapy=str(rn), model=mnum))
+                if reg:
+                    disagree('evalNumeric', dict(inp, lcapy=str(rn), model=mnum))
+                else:
+                    # outside the property's quantifier (a discontinuity / pole): the value chosen there is validated by the
+                    # table stream in t, f, omega, n, k; elsewhere it is a diagnostic only (observed: sign(z) at z = 0 gives 1)
+                    chk.count('diagnostic', 'numeric-value-at-a-non-regular-point-differs')
+                    if len(chk.coverage['correspondence']['diagnostics']) < 8:
+                        chk.coverage['correspondence']['diagnostics'].append(
+                            'non-regular point: %s at %s=%s: lcapy %s, model %s' % (inp['sympy'][:80], vname, inp['x'], rn, mnum))
+        elif mnum == 'nan' and e[0] != 'pw':
+            # a NaN produced inside a larger expression sends the real code to SymPy's `limit` of the whole expression,
+            # which is outside the model (observed: limit(Piecewise((k, k <= -1/2))*UnitImpulse(3/2 - k/2), k, 3) = 0)
+            chk.count('degenerate', 'nested-nan-goes-to-sympy-limit')
         elif mnum == 'nan':
             chk.coverage['correspondence']['compared'] += 1
             if rn[0] not in ('err', 'nan'):
@@ -555,7 +582,11 @@ def run(chk, replay=None):
         if msym.startswith('val'):
             chk.coverage['correspondence']['compared'] += 1
             if not sym_matches(rs, Fraction(msym.split()[1]), 'trap' in fns_in(e)):
-                disagree('evalSymbolic', dict(inp, lcapy=str(rs), model=msym))
+                if reg:
+                    disagree('evalSymbolic', dict(inp, lcapy=str(rs), model=msym))
+                else:
+                    # e.g. SymPy rewrites sign(z)**2 to 1 while the expression is built: differs only AT sign's discontinuity
+                    chk.count('diagnostic', 'symbolic-value-at-a-non-regular-point-differs')
         elif msym == 'nan':
             chk.coverage['correspondence']['compared'] += 1
             if rs[0] != 'nan':
@@ -577,7 +608,7 @@ def run(chk, replay=None):
                     fails.append(('symbolic', 'subs = %s, specEval = %s' % (rs, mspec)))
             elif mspec == 'nan':
                 # result valid only on part of the axis: must not be extrapolated to a number
-                if rn[0] in ('val', 'inf') and not bnd:
+                if rn[0] in ('val', 'inf') and not bnd and e[0] == 'pw':
                     fails.append(('numeric-guard', 'evaluate() = %s where the expression has no value' % (rn,)))
                 if rs[0] == 'val':
                     fails.append(('symbolic-guard', 'subs = %s where the expression has no value' % (rs,)))
@@ -620,6 +651,11 @@ def run(chk, replay=None):
         zero_body = any(a.expr == 0 for pwz in E.sympy.atoms(sym.Piecewise) for a in pwz.args)
         if zero_body:
             chk.count('degenerate', 'piecewise-with-zero-body')
+            return
+        if pw_chains(e) != len(E.sympy.atoms(sym.Piecewise)):
+            # SymPy folded a Piecewise away while the expression was built (0 * Piecewise, nested Piecewise merged, ...):
+            # Lcapy then holds a different object from the model's
+            chk.count('degenerate', 'piecewise-restructured-by-sympy')
             return
         for x in xs:
             fails, inf = judge_expr(e, vname, x, E)
